@@ -1229,6 +1229,10 @@ class Engine:
             tmp.heap = oh
             tmp.pc = st.pc
             return [(st, self.ev(node.args[0], tmp)[0][1])]
+        if isinstance(node.func, ast.Attribute) and node.func.attr == 'pop' and not node.args and not self.pure:
+            r = self.ev_pop(node, st)
+            if r is not None:
+                return r
         if isinstance(node.func, ast.Attribute) and ('mut:' + node.func.attr) in self.builtins and not self.pure:
             r = self.ev_mutating(node, st)
             if r is not None:
@@ -1259,6 +1263,22 @@ class Engine:
                             out.append((s4, rv))
                     else:
                         out.append((s3, rv))
+        return out
+
+    def ev_pop(self, node, st):
+        """lst.pop(): IndexError on an empty list, else removes and returns the last element."""
+        out = []
+        for s, recv in self.ev(node.func.value, st):
+            if not isinstance(recv, View):
+                return None
+            s = self.fork_exc(s, num_cmp('>', recv.length, 0), 'IndexError', node)
+            if s.dead:
+                continue
+            n1 = simp(num_binop('-', recv.length, 1, Pending()))
+            last = recv.get(n1)
+            nv = View(n1, recv.get, recv.ekind, recv.facts, recv.tag)
+            for s3 in self.assign(node.func.value, nv, s, node):
+                out.append((s3, last))
         return out
 
     def ev_mutating(self, node, st):
